@@ -346,7 +346,8 @@ def check_derivation(ctx: Ctx, rep: Report, outer: FuncInfo, fn: FuncInfo) -> No
     rep.check(size == rfc.KEY_EXPANSION_LEN and ok_exp, "C10-R5", site, "the password is repeated and truncated to exactly 1 048 576 octets", f"truncation length {size}", key=f"{fn.key}|expansion-length")
     if factor_expr is not None and size:
         bad = []
-        for length in list(range(1, 301)) + [1024, 4096, size - 1, size, size + 1]:
+        deep = ctx is not None and getattr(rep, "tier", "quick") == "thorough"
+        for length in list(range(1, 4097 if deep else 301)) + [1024, 4096, 65536, size - 1, size, size + 1]:
             def atom(expr: ast.AST, length=length):
                 if isinstance(expr, ast.Call) and isinstance(expr.func, ast.Name) and expr.func.id == "len" and norm(expr.args[0]) == pw:
                     return length
